@@ -537,7 +537,12 @@ def ord6(ctx, pid):
     for r, cst, okmsg in (("ORD6", "check-before-touch:SparseMerkleProof.update", "the proof is untouched on every raising path; the refusal precedes the branch write"),
                           ("REL2", "exact-bound:SparseMerkleProof.update", "refused iff len(node_updates) <= branch_point; the subscript is in range on the write path"),
                           ("EFF5", "effect-sets:SparseMerkleProof.update", "same key: only _value := value; other key: only _branch[bp] := node_updates[bp], bp from the highest differing bit")):
-        if r in by_rule:
+        counting_loop = any(isinstance(n_, ast.While) for n_ in ast.walk(f.node))
+        if r in by_rule and counting_loop and r in ("REL2", "EFF5"):
+            # the highest differing bit is found by a hand-written counting loop: the rule knows the scan over
+            # reversed(range(size)) and bit_length(), and says so rather than calling the other shape wrong
+            ctx.unsure(cst, f.loc(), "the branch point is computed by a `while` loop the rule cannot interpret (%s)" % by_rule[r][0][:80], rule=r)
+        elif r in by_rule:
             ctx.bad(cst, f.loc(), by_rule[r][0], rule=r, witness={"problems": sorted(set(by_rule[r]))})
         else:
             ctx.ok(cst, f.loc(), okmsg, rule=r)
